@@ -1057,6 +1057,17 @@ def _install(w):
             w.stats['fn:pending_start'] += 1
             if over:
                 w.run.tags.add('pending-start-froze')
+            frozen_now = sorted({sv for sv, _al in w.freeze_log[f0:]})
+            if len(frozen_now) >= 2:
+                w.run.tags.add('pending-start-froze-2+')
+            for sv in frozen_now:
+                # what a successor (or a reload) will read: the stored state of every server frozen by this check
+                stored = self.backend.get_default(z.path.placement(sv)) or {}
+                if sv in self.servers and stored.get('state') != 'frozen':
+                    w.run.hits.append(fw.Hit(
+                        clause='freeze-not-recorded', call_site='Master._check_pending_start',
+                        detail='%s was frozen (instances not started in time), its stored state is %r' % (
+                            sv, stored.get('state'))))
             return r
         return _check_pending_start
     patch(Master, '_check_pending_start', mk_pending)
